@@ -54,11 +54,12 @@ EXPRS = [
     ("(MIT OR GPL-3.0)", ["MIT", "GPL-3.0"]),
     ("GPL-2.0-or-later WITH Classpath-exception-2.0", ["GPL-2.0-or-later", "Classpath-exception-2.0"]),
     ("LicenseRef-x+ AND (MIT)", ["LicenseRef-x+", "MIT"]),
+    ("LicenseRef-a_b", ["LicenseRef-a_b"]),  # malformed LicenseRef (underscore): not a valid identifier
 ]
 PARSED = [None if e is None else _LICENSING.parse(e) for e, _ in EXPRS]
 # provision forms of one identifier in LICENSES/
 FORMS = ["absent", "ID.txt", "ID.md", "ID", "sub/ID.txt", "ID+.txt", "ID.txt+license"]
-PROV_IDS = ["MIT", "GPL-3.0", "LicenseRef-x", "Foo", "GPL-2.0-or-later", "Classpath-exception-2.0"]
+PROV_IDS = ["MIT", "GPL-3.0", "LicenseRef-x", "Foo", "GPL-2.0-or-later", "Classpath-exception-2.0", "LicenseRef-a_b"]
 FILES = [ROOT / "src" / "a.py", ROOT / "doc" / "b c.txt", ROOT / "ü.rs"]
 
 NFILES = int(PARAMS.get("nfiles", 1))
